@@ -17,6 +17,7 @@
   (c) `C16_header_semantics`: replace / append on the header maps.
   (d) `C16_defaults`: Accept / User-Agent / Accept-Encoding put in by `try_prepare`.
 -/
+import Atto.Gen.Consts
 import Atto.Lemmas.SettingsRefine
 namespace Atto
 
@@ -564,5 +565,17 @@ example :
     (tryPrepare ⟨false, str "ua"⟩ h b).getAll (str "accept-encoding") = [str "br"] ∧
     (tryPrepare ⟨false, str "ua"⟩ [] b).getAll (str "accept") = [str "*/*"] ∧
     (tryPrepare ⟨false, str "ua"⟩ [] b).getAll (str "accept-encoding") = [] := by decide +kernel
+
+
+/-- Tie to the source: the model's default settings are the field values of
+    `BaseSettings::default()` extracted from src/request/settings.rs on this run. -/
+theorem C16_defaults_table :
+    ({} : Scalars).maxHeaders = Consts.defaultMaxHeaders ∧
+    ({} : Scalars).maxRedirections = Consts.defaultMaxRedirections ∧
+    ({} : Scalars).followRedirects = Consts.defaultFollowRedirects ∧
+    ({} : Scalars).connectTimeout = Consts.defaultConnectTimeoutMs ∧
+    ({} : Scalars).readTimeout = Consts.defaultReadTimeoutMs ∧
+    (({} : Scalars).timeout = none) = (Consts.defaultTimeoutNone = true) ∧
+    ({} : Scalars).allowCompression = Consts.defaultAllowCompression := by decide
 
 end Atto
